@@ -21,6 +21,20 @@ CLAIMED = {
             "5.C11", "Trusted: Coq kernel; hand-written model (tied by correspondence, not generated); extraction (ExtrOcamlBasic only); harness; std Vec::reserve contract.",
             "Coq refinement proof (induction over op list) + model/impl differential execution"),
 }
+CLAIMED["C13"] = ("Proof (runtime part): encoding a Result yields 0 exactly for Ok and then the success value sits in the caller's slot; for Err the code is "
+    "non-zero and the slot untouched; decoding reads the slot only when the code is 0; none of the shipped error types encodes to 0; a non-zero OS "
+    "code survives unchanged; round trip through a fresh slot never reads uninitialised memory. Model tied to cglue/src/result.rs by differential "
+    "execution over boundary and random i32 values with droppable payloads; slot-write detection + drop counters as monitor. The generated "
+    "out-parameter plumbing of #[int_result] traits is covered by the generator checks.",
+    "5.C13", "Trusted: Coq kernel; hand-written model tied by correspondence; extraction; harness; std::io::Error.",
+    "Coq algebraic laws + model/impl differential execution")
+CLAIMED["C14"] = ("Proof: for every input the buffer is the input up to its first NUL plus exactly one NUL, the NUL scan stays inside the allocation and "
+    "returns the allocated size, read-back is the prefix, clones are equal by content, the free uses the allocated size, nothing else is allocated; "
+    "the pre-repair byte-slice constructor is proved to violate this (C14_v0_refuted). Model tied to cglue/src/repr_cstring.rs by differential "
+    "execution over all sequences up to a bound over {NUL, ASCII, 2/3/4-byte sequences} x 3 constructors; tracking allocator (size of every free) as monitor. "
+    "One genuine defect found and repaired (fix: a044aba).",
+    "5.C14", "Trusted: Coq kernel; hand-written model tied by correspondence; extraction; harness allocator.",
+    "Coq proof over all byte strings (induction) + model/impl differential execution")
 PENDING = "not yet built in this round (planned, see DESIGN.md section 5); not claimed until its theorem, tie and monitor exist"
 NA = {}
 
